@@ -116,7 +116,7 @@ def load(path):
             line = line.rstrip('\n')
             if cur is None:
                 if line.startswith('alloc'):
-                    m = re.match(r'^(alloc\d+) \(static: ([^,)]*)', line)
+                    m = re.match(r'^(alloc\d+) \(static: (.*?)(?:, size: \d+, align: \d+)?\)(?: \{)?$', line)
                     if m:
                         it = Item('alloc', '@' + m.group(1), line); it.value_text = m.group(2); items[it.name] = it
                     continue
